@@ -83,9 +83,9 @@ class Term:
             return self
         atoms = tuple((atom_subst(a, m), e) for a, e in self.atoms)
         if drop:
-            binders = tuple((b, c) for b, c in self.binders if b not in m)
+            binders = tuple((b, cond_subst(c, m) if isinstance(c, str) else c) for b, c in self.binders if b not in m)
         else:
-            binders = tuple((m.get(b, b), c) for b, c in self.binders)
+            binders = tuple((m.get(b, b), cond_subst(c, m) if isinstance(c, str) else c) for b, c in self.binders)
         guards = [tuple([g[0]] + [m.get(x, x) if isinstance(x, str) else x for x in g[1:]]) for g in self.guards if len(g) == 3]
         if any(g == ("false",) for g in self.guards):
             guards.append(("<", 0, 0))
@@ -155,6 +155,9 @@ def atom_vars(a):
                 out.add(x[1])
             elif isinstance(x, tuple):
                 out |= atom_vars(x)
+            elif isinstance(x, str) and "«" in x:
+                import re as _re
+                out |= set(_re.findall("«([^»]*)»", x))
     elif k == "prod":
         out |= a[3].free_vars() - {a[1]}
     elif k == "ite":
@@ -182,6 +185,8 @@ def atom_subst(a, m):
                 out.append(("ix", m.get(x[1], x[1])))
             elif isinstance(x, tuple):
                 out.append(atom_subst(x, m))
+            elif isinstance(x, str):
+                out.append(cond_subst(x, m))
             else:
                 out.append(x)
         return ("call", a[1]) + tuple(out)
